@@ -940,7 +940,7 @@ func (env *Env) callSpec(sf *SpecFn, args []Expr) Val {
 	if len(vc.flat(rt)) != 1 {
 		efail("spec fn %s: composite result", sf.Name)
 	}
-	if sf.Rec && sf.Body != nil {
+	if sf.Rec && sf.Body != nil && !vc.opaque[sf.Pkg+"."+sf.Name] {
 		fuel := "(fuelS (fuelS fuelZ))"
 		if f, ok := env.recFuel[name]; ok {
 			fuel = f
@@ -976,7 +976,7 @@ func (vc *VC) declareSpecFn(sf *SpecFn) string {
 	}
 	rt := env.resolveType(sf.Result)
 	rs := vc.sort1(rt)
-	if sf.Body == nil {
+	if sf.Body == nil || vc.opaque[sf.Pkg+"."+sf.Name] {
 		if len(sorts) == 0 {
 			vc.declare(name, "(declare-const "+name+" "+rs+")")
 		} else {
